@@ -440,29 +440,46 @@ impl<T: Elem + SatisfyTraits<Tr>, M: MX, Tr: TrX + ?Sized> World<T, M, Tr> {
     }
 }
 
-pub const N_ADAPT: u8 = 15;
+/// adaptor op code = pre << 6 | which << 3 | n : `pre` plain next() calls first, then adaptor `which` with argument `n`
+pub fn adapt_ops() -> Vec<u8> {
+    let mut v = Vec::new();
+    for pre in 0..3u8 { for which in 0..8u8 { for n in 0..6u8 {
+        if which == 7 && n > 4 { continue; }
+        v.push(pre << 6 | which << 3 | n);
+    } } }
+    v
+}
 
 #[derive(Debug, Clone, PartialEq)]
 pub enum AObs<X> { Item(X), Nothing, Count(usize) }
 
 /// Apply std adaptor `op` to an iterator. The same function runs on the library's iterator and on std's (`vec::Drain`, slice iter).
 pub fn adapt<I: DoubleEndedIterator + ExactSizeIterator, X>(it: &mut I, op: u8, mut f: impl FnMut(I::Item) -> X) -> Vec<AObs<X>> {
-    let mut out = { let _w = elem::WindowOff::new(); Vec::with_capacity(16) };
+    let (pre, which, n) = ((op >> 6) as usize, (op >> 3) & 7, (op & 7) as usize);
+    let mut out = { let _w = elem::WindowOff::new(); Vec::with_capacity(32) };
     let mut one = |o: Option<I::Item>, out: &mut Vec<AObs<X>>| match o { Some(x) => out.push(AObs::Item(f(x))), None => out.push(AObs::Nothing) };
-    match op {
-        0 | 1 | 2 => { let x = it.nth(op as usize); one(x, &mut out); }
-        3 | 4 => { let x = it.nth_back(op as usize - 3); one(x, &mut out); }
-        5 => { let x = it.by_ref().skip(1).next(); one(x, &mut out); }
-        6 => { for x in it.by_ref().step_by(2) { one(Some(x), &mut out); } }
-        7 => { for x in it.by_ref().rev() { one(Some(x), &mut out); } }
-        8 => { for x in it.by_ref().take(1) { one(Some(x), &mut out); } }
-        9 => { let x = it.by_ref().last(); one(x, &mut out); }
-        10 => { let n = it.by_ref().count(); out.push(AObs::Count(n)); }
-        11 => { for x in it.by_ref().skip(2) { one(Some(x), &mut out); } }
-        12 => { let x = it.nth(1); one(x, &mut out); let y = it.nth_back(0); one(y, &mut out); while let Some(z) = it.next() { one(Some(z), &mut out); } }
-        13 => { let x = it.by_ref().rev().skip(1).next(); one(x, &mut out); }
-        _ => { let x = it.nth(1); one(x, &mut out); out.push(AObs::Count(it.len())); let y = it.next_back(); one(y, &mut out); }
+    for _ in 0..pre { let x = it.next(); one(x, &mut out); }
+    match which {
+        0 => { let x = it.nth(n); one(x, &mut out); }
+        1 => { let x = it.nth_back(n); one(x, &mut out); }
+        2 => { let x = it.by_ref().skip(n).next(); one(x, &mut out); }
+        3 => { let x = it.by_ref().rev().skip(n).next(); one(x, &mut out); }
+        4 => { for x in it.by_ref().step_by(n + 1).take(8) { one(Some(x), &mut out); } }
+        5 => { for x in it.by_ref().rev().step_by(n + 1).take(8) { one(Some(x), &mut out); } }
+        6 => { for x in it.by_ref().take(n) { one(Some(x), &mut out); } }
+        _ => match n {
+            0 => { let x = it.by_ref().last(); one(x, &mut out); }
+            1 => { let c = it.by_ref().count(); out.push(AObs::Count(c)); }
+            2 => { for x in it.by_ref().rev().take(8) { one(Some(x), &mut out); } }
+            3 => { let x = it.nth(1); one(x, &mut out); let y = it.nth_back(0); one(y, &mut out); }
+            _ => { let x = it.nth_back(1); one(x, &mut out); let y = it.nth(0); one(y, &mut out); }
+        },
     }
+    // what is left: reported length, then (bounded) the remaining items from both ends, then fusedness
+    out.push(AObs::Count(it.len()));
+    for k in 0..8 { let x = if k % 2 == 0 { it.next() } else { it.next_back() }; let none = x.is_none(); one(x, &mut out); if none { break; } }
+    let x = it.next(); one(x, &mut out);
+    let y = it.next_back(); one(y, &mut out);
     out.push(AObs::Count(it.len()));
     out
 }
